@@ -56,3 +56,35 @@ fn f01c_ia5string_20000_does_not_round_trip() {
     let d = r.read::<big::S>();
     assert!(d.is_err() || d.unwrap().0.len() != 20000 || r.bits_remaining() != 0);
 }
+
+mod pb {
+    use asn1rs::prelude::*;
+    asn_to_rust!(
+        r"Pb DEFINITIONS AUTOMATIC TAGS ::= BEGIN
+          E ::= SEQUENCE { v INTEGER (-5..5, ...) }
+          N ::= SEQUENCE { n NULL, x INTEGER (0..255) }
+        END"
+    );
+}
+
+#[test]
+fn f17a_extensible_integer_truncated_by_protobuf() {
+    use asn1rs::prelude::*;
+    let v = pb::E { v: 1 << 40 };
+    let mut w = ProtobufWriter::default();
+    w.write(&v).unwrap();
+    let bytes = w.into_bytes_vec();
+    let mut r = ProtobufReader::from(&bytes[..]);
+    let d = r.read::<pb::E>().unwrap();
+    assert_ne!(d.v, 1 << 40);
+}
+
+#[test]
+fn f18a_null_does_not_consume_a_field_number() {
+    use asn1rs::prelude::*;
+    let v = pb::N { n: Null, x: 9 };
+    let mut w = ProtobufWriter::default();
+    w.write(&v).unwrap();
+    // x is written as field 1 (08 09) although the generated .proto numbers it 2
+    assert_eq!(w.into_bytes_vec(), vec![0x08, 0x09]);
+}
